@@ -6,7 +6,8 @@ covers every start reachable on small universes. BioConsert() / BioCo() have no 
 Oracle: reference single-move neighbourhood scored by the reference cost table.
 """
 from .. import gen, model
-from ..lib import build_dataset, build_scheme, canon_ranking, jsonable_ranking, uses_random
+from ..lib import (build_dataset, build_scheme, canon_ranking, jsonable_ranking, uses_random, canon_rankings, call,
+                   Element, alg_label, build_alg)
 from ..seed import digest
 from .common import Discard, run_alg, well_formed, dataset_tags, sweep
 
@@ -19,7 +20,7 @@ LEVEL_TEXT = ("seeded search over datasets x schemes x starting-algorithm config
               "single-element move of every returned ranking is rescored with the reference cost table")
 ASSUMPTIONS = ["reference neighbourhood (model.neighbourhood) and reference cost table",
                "non-dyadic schemes are judged with 1e-6 slack on top of the 0.001 threshold"]
-EXPECTED_PROBES = ["moves_rescored", "randomised_start", "multi_bucket_result"]
+EXPECTED_PROBES = ["moves_rescored", "randomised_start", "multi_bucket_result", "mutated_in_place"]
 
 CONFIGS = [{"alg": "BioConsert"}, {"alg": "BioCo"},
            {"alg": "BioConsert", "starters": [{"alg": "KwikSortRandom"}]},
@@ -38,6 +39,13 @@ def gen_case(st, tier, env):
     for _ in range(k.choice([2, 3, 4])):
         a = dict(w.choice(CONFIGS)) if k.random() < 0.8 else {"alg": "BioConsert", "starters": gen.gen_starters(w)}
         calls.append({"alg": a, "one": k.choice([False, False, True]), "sched": gen.gen_sched(st.schedule)})
+
+    # history dimension: the algorithm instances are shared by all calls of the run and the Dataset object may be
+    # edited in place between two calls (anything cached on an instance or on the dataset must follow)
+    if k.random() < 0.3 and len(calls) >= 2:
+        at = w.randrange(1, len(calls))
+        calls.insert(at, {"mutate": w.choice(["remove_elements", "remove_empty", "remove_empty", "remove_rate"]),
+                          "pick": [w.randrange(64)], "rate": w.choice([0.0, 0.3, 0.5])})
     n_univ = len({e for r in ds["rankings"] for b in r for e in b})
     return {"dataset": ds, "scheme": scheme, "calls": calls, "dyadic": dy,
             "sweep": tier == "thorough" and n_univ <= 5 and k.random() < 0.3}
@@ -89,13 +97,36 @@ def run_case(case, ctx):
                         case, sweep=False, calls=[dict(c, sched={"draws": out.picks, "fallback": "first", "seed": 0})])
                     return
 
+    instances = {}
     for c in case["calls"]:
+        if "mutate" in c:
+            univ = model.universe(mr)
+            if c["mutate"] == "remove_elements" and len(univ) > 2:
+                call(ds.remove_elements, {Element(univ[c["pick"][0] % len(univ)])})
+            elif c["mutate"] == "remove_rate":
+                call(ds.remove_elements_rate_presence_lower_than, c["rate"])
+            else:
+                call(ds.remove_empty_rankings)
+            mr = canon_rankings(ds.rankings)
+            elems = model.universe(mr)
+            tags = dataset_tags(mr, case["scheme"])
+            tags["after_mutation"] = c["mutate"]
+            ctx.probe("mutated_in_place")
+            ctx.event("mutate", c["mutate"], model.canon(mr))
+            cost = model.ref_cost(mr, elems, B, T)
+            continue
+        lab = alg_label(c["alg"])
+        if lab not in instances:
+            okb, inst = call(build_alg, c["alg"])
+            if not okb:
+                continue
+            instances[lab] = inst
         try:
             if case.get("sweep") and uses_random(c["alg"]):
                 n = sweep(c["alg"], ds, sc, c["one"], lambda out, sp: judge(out, c), cap=150)
                 ctx.probe("sweep_leaves", n)
                 ctx.probe("schedule_trees_swept")
             else:
-                judge(run_alg(c["alg"], ds, sc, c["one"], c["sched"]), c)
+                judge(run_alg(c["alg"], ds, sc, c["one"], c["sched"], alg=instances[lab]), c)
         except Discard:
             ctx.probe("discarded_stub_capacity")
